@@ -174,10 +174,13 @@ TreeStr(T, i) == LET kids == FoldLeft(LAMBDA a, r : StrCat(StrCat(a, TreeStr(T, 
 
 \* ------------------------------------------------------------------ judgements
 \* The cells a parse result stands for, as hashes: root hashes at the highest level, in root order.
-RootHashes(pr) == LET I == InfoTable(pr.T) IN [i \in 1..Len(pr.roots) |-> ReprHash(I[pr.roots[i]])]
+\* (the info table is an ARGUMENT of the helper: TLC evaluates an argument once, a LET at every use when called from an action)
+RootHashesI(I, roots) == [i \in 1..Len(roots) |-> ReprHash(I[roots[i]])]
+RootHashes(pr) == RootHashesI(InfoTable(pr.T), pr.roots)
 
 \* "shared sub-trees are stored once": no two cells of the bag are structurally equal
-NoDuplicates(pr) == LET I == InfoTable(pr.T) IN Cardinality({ReprHash(I[i]) : i \in 1..Len(pr.T)}) = Len(pr.T)
+NoDuplicatesI(I, n) == Cardinality({ReprHash(I[i]) : i \in 1..n}) = n
+NoDuplicates(pr) == NoDuplicatesI(InfoTable(pr.T), Len(pr.T))
 \* every cell is reachable from a root (nothing but the DAG is stored)
 Reach(pr) == LET n == Len(pr.T)
                  R == FoldLeft(LAMBDA acc, i : IF i \in acc THEN acc \cup {pr.T[i].r[j] : j \in 1..Len(pr.T[i].r)} ELSE acc,
